@@ -150,6 +150,10 @@ func (tt *TermTable) UF(name, ret string, args ...*Term) *Term {
 	if len(args) == 0 {
 		return tt.Sym(name, ret)
 	}
+	// inverse of a field-address function applied to that function
+	if strings.HasPrefix(name, "inv$") && len(args) == 1 && args[0].Kind == KApp && args[0].Op == name[4:] {
+		return args[0].Args[0]
+	}
 	return tt.App(name, ret, args...)
 }
 
@@ -845,7 +849,7 @@ func (t *Term) print(sb *strings.Builder, names map[int]string) {
 		if len(t.Pats) > 0 {
 			sb.WriteString("(! ")
 		}
-		t.Args[0].print(sb, names)
+		printWithLets(t.Args[0], sb, names)
 		if len(t.Pats) > 0 {
 			for _, p := range t.Pats {
 				sb.WriteString(" :pattern (")
@@ -1052,4 +1056,53 @@ func termSize(ts ...*Term) int {
 		rec(t)
 	}
 	return len(seen)
+}
+
+// printWithLets prints a quantifier body; subterms that mention bound variables and occur more than once are
+// bound with nested lets (ground shared subterms are already hoisted as define-funs).
+func printWithLets(body *Term, sb *strings.Builder, names map[int]string) {
+	refs := map[int]int{}
+	var order []*Term
+	seen := map[int]bool{}
+	var walk func(x *Term)
+	walk = func(x *Term) {
+		if names != nil {
+			if _, ok := names[x.id]; ok {
+				return
+			}
+		}
+		refs[x.id]++
+		if seen[x.id] {
+			return
+		}
+		seen[x.id] = true
+		if x.Kind == KQuant {
+			// nested quantifiers are printed by their own call
+			return
+		}
+		for _, a := range x.Args {
+			walk(a)
+		}
+		order = append(order, x) // post-order: children first
+	}
+	walk(body)
+	local := map[int]string{}
+	for k, v := range names {
+		local[k] = v
+	}
+	nlets := 0
+	for _, x := range order {
+		if x.Kind == KApp && x.hasBound && refs[x.id] > 1 && x != body {
+			name := fmt.Sprintf("$l%d_%d", body.id, x.id)
+			var inner strings.Builder
+			x.print(&inner, local)
+			sb.WriteString("(let ((" + name + " " + inner.String() + ")) ")
+			local[x.id] = name
+			nlets++
+		}
+	}
+	body.print(sb, local)
+	for i := 0; i < nlets; i++ {
+		sb.WriteString(")")
+	}
 }
